@@ -12,7 +12,7 @@ import (
 )
 
 var e4OptsC08 = e4GenOpts{MaxSteps: 12, QoSWeights: []int{2, 2, 2}, SubWeight: 22, MaxFaults: 5, AllowRefuse: false, Outages: true, PreConnect: true,
-	FilterPool: []string{"a", "a", "b", "a/+", "a/b", "c/#", "c/d", c08Long("x"), c08Long("y"), c08Long("z/+"), c08Long("w/#")}, CutTypes: []int{rtConnect, rtPublish, rtSubscribe, rtSubscribe, rtUnsubscribe, rtUnsubscribe}, MaxConn: 4}
+	FilterPool: []string{"a", "a", "b", "a/+", "a/b", "A", "a/B", "c/#", "c/d", c08Long("x"), c08Long("y"), c08Long("z/+"), c08Long("w/#")}, CutTypes: []int{rtConnect, rtPublish, rtSubscribe, rtSubscribe, rtUnsubscribe, rtUnsubscribe}, MaxConn: 4}
 
 func c08Nontrivial(r *e4Result) (bool, []string) {
 	// >= 1 reconnect after >= 1 acknowledged subscribe, and the history has a repeat, an unsubscribe, or a pending request at the reconnect
